@@ -448,6 +448,8 @@ class Gen:
                     for o in objs:
                         if o["scene"] == 0 and r.random() < 0.85:
                             self.emit("set_add", v=s, obs=self.observation(o, False))
+                    if r.random() < 0.3:
+                        self.emit("set_str", v=s)
                     self.emit("t_predict", v=t, set=s, poison=True)
                 else:
                     sc = r.choice(scenes)
@@ -499,6 +501,58 @@ class Gen:
                 self.common_tracker_op(t, True, scenes)
         self.emit("t_wasted", v=t, poison=True)
 
+    def fam_defaults(self, size):
+        """constructors with omitted arguments, followed by calls whose results depend on each omitted value:
+        shards (length of shard_stats), bbox_history (length of the wasted histories), max_idle_epochs (idle / wasted
+        after skipping exactly 5 and 6 epochs), method (association), min_confidence (IoU x clamped confidence against a
+        small threshold), constraints, Kalman weights (predicted boxes)."""
+        r = self.r
+        variant = r.randint(0, 5)
+        batch = bool(variant & 1)
+        kw = {}
+        lowconf = variant in (2, 3)
+        tight = variant in (4, 5)
+        if tight:
+            # an explicit constraints object that forbids the association of these fast objects: the argument must arrive
+            c = self.emit("stc_new", True)
+            self.emit("stc_add", v=c, constraints=[[k, fb(0.125)] for k in range(1, 4)])
+            kw["spatio_temporal_constraints"] = c
+            kw["method"] = self.emit("pmt_iou", True, threshold=fb(0.05))
+        if lowconf:
+            kw["method"] = self.emit("pmt_iou", True, threshold=r.choice([fb(0.06), fb(0.07), fb(0.08), fb(0.09)]))
+        t = self.emit("bs_new" if batch else "sort_new", True, **kw)
+        objs = [{"x": 50.0 * k + r.uniform(0, 5), "y": 20.0, "w": r.uniform(10, 20), "h": r.uniform(10, 20), "id": k} for k in range(r.randint(1, 3))]
+
+        def frame():
+            boxes = []
+            for o in objs:
+                c = fb(0.0) if lowconf else self.conf()
+                b = self.emit("u_ltwh_conf", True, l=fb(o["x"]), t=fb(o["y"]), w=fb(o["w"]), h=fb(o["h"]), c=c)
+                boxes.append([b, o["id"]])
+            if batch:
+                req = self.emit("sreq_new", True)
+                for b, i in boxes:
+                    self.emit("sreq_add", v=req, scene=0, box=b, custom_object_id=i)
+                self.emit("t_batch_predict", v=t, req=req, poison=True)
+            else:
+                self.emit("t_predict", v=t, boxes=boxes, poison=True)
+        for _ in range(r.randint(2, 4)):
+            frame()
+            if tight:
+                for o in objs:
+                    o["x"] += 0.5 * o["w"]
+            elif not lowconf:
+                for o in objs:
+                    o["x"] += r.uniform(1, 3)
+                    o["y"] += r.uniform(-1, 1)
+        self.emit("t_shard_stats", v=t, poison=True)
+        for n in (r.choice([4, 5]), 1, 1):
+            self.emit("t_skip_epochs", v=t, n=n, poison=True)
+            self.emit("t_idle_tracks_with_scene", v=t, scene=0, poison=True)
+            self.emit("t_shard_stats", v=t, poison=True)
+        self.emit("t_wasted", v=t, poison=True)
+        self.emit("t_current_epoch", v=t, poison=True)
+
     def fam_malformed(self, size):
         """inputs that the wrapped Rust API itself rejects: both sides must fail, and go on identically afterwards"""
         r = self.r
@@ -549,8 +603,8 @@ class Gen:
                 self.emit("nms", dets=[[z, None], [u, None]], nms_threshold=fb(0.5), score_threshold=None)
 
 
-FAMILIES = ["boxes", "funcs", "kalman", "types", "sort", "visual", "batch_sort", "batch_visual", "malformed"]
-WEIGHTS = {"boxes": 3, "funcs": 2, "kalman": 3, "types": 2, "sort": 4, "visual": 3, "batch_sort": 2, "batch_visual": 2, "malformed": 1}
+FAMILIES = ["boxes", "funcs", "kalman", "types", "sort", "visual", "batch_sort", "batch_visual", "malformed", "defaults"]
+WEIGHTS = {"boxes": 3, "funcs": 2, "kalman": 3, "types": 2, "sort": 4, "visual": 3, "batch_sort": 2, "batch_visual": 2, "malformed": 1, "defaults": 2}
 
 
 def gen_scripts(seed, n, size):
@@ -582,6 +636,11 @@ def validation_probes():
         ins = [{"op": "vso_new", "out": 1}, dict({"op": "vso_set", "v": 1, "method": m}, **a)]
         probes.append({"family": "probe:options-validation", "method": m, "ins": ins})
     return probes
+
+
+def exports_probe():
+    """the names the extension module exports (registration of classes / functions)"""
+    return {"family": "probe:module-exports", "ins": [{"op": "module_exports"}]}
 
 
 def handle_probe():
@@ -787,6 +846,28 @@ def decode_script(script):
     return out
 
 
+CHECKERS = ["getter_ok", "setter_ok", "delegate_ok", "default_ok", "registered_ok", "name_unique", "no_other_ok"]
+
+
+def failing_rows():
+    """Which rows of the regenerated table fail which checker (evaluated by coqc; needs Model/Bindings.vo)."""
+    pre = ("From Coq Require Import String List QArith Bool.\nFrom SimilariGen Require Import Bindings.\n"
+           "From Similari Require Import Model.Bindings.\nImport ListNotations.\nOpen Scope string_scope.\n")
+    exprs = ["map (fun it => (i_class it, i_name it, i_where it)) (filter (fun it => negb (%s it)) bindings)" % c for c in CHECKERS]
+    exprs.append("map (fun c => (c_rust c, c_py c, c_where c)) (filter (fun c => negb (class_registered c && class_name_unique c)) classes)")
+    exprs.append("map (fun d => match d with (c, n, p, _) => (c, n, p) end) (filter (fun d => negb (documented_present d)) documented_defaults)")
+    try:
+        vals = vlib.coq_eval(pre, exprs, shard_size=20, timeout=300, tag="c18rows")
+    except RuntimeError as e:
+        return {"error": str(e)[-800:]}
+    out = {}
+    for name, v in zip(CHECKERS + ["class_registered", "documented_present"], vals):
+        rows = vlib.parse_coq_value(v)
+        if rows:
+            out[name] = [list(r) if isinstance(r, tuple) else r for r in rows]
+    return out
+
+
 def replay_cmd(path):
     return "cd /verif && ./check C18 --replay %s" % path
 
@@ -815,6 +896,11 @@ def run(chk):
     except (OSError, ValueError):
         pass
     table_broken = list(chk.broken)
+    rows = {}
+    if table_broken and os.path.exists(os.path.join(vlib.COQ, "theories", "Model", "Bindings.vo")):
+        rows = failing_rows()
+        chk.log("table rows failing a checker: %s" % json.dumps(rows)[:1500])
+        chk.coverage["failing_rows"] = rows
 
     # ---- (2) differential execution ------------------------------------------------------------------------------
     t0 = time.time()
@@ -828,8 +914,8 @@ def run(chk):
                       {"log": log, "broken": chk.broken}, found_input=False)
         chk.coverage.update({"evaluations": 0})
         return
-    n, size = (300, 24) if chk.tier == "quick" else (3000, 40)
-    scripts = gen_scripts(chk.seed, n, size) + validation_probes() + [handle_probe()]
+    n, size = (600, 24) if chk.tier == "quick" else (3000, 40)
+    scripts = gen_scripts(chk.seed, n, size) + validation_probes() + [exports_probe(), handle_probe()]
     t0 = time.time()
     py, rs, notes = run_both([s["ins"] for s in scripts], "run", timeout=900 if chk.tier == "quick" else 3000)
     chk.log("executed %d scripts / %d instructions through both drivers (%.1fs)" % (len(scripts), sum(len(s["ins"]) for s in scripts), time.time() - t0))
@@ -864,8 +950,8 @@ def run(chk):
         "scripts": len(scripts),
         "distinct_nontrivial": len(nontrivial),
         "rule": "API scripts generated from the seed (families: boxes, funcs(nms/clip/area), kalman(box/point/vec), types(metric types, "
-                "constraints, every VisualSortOptions builder method), sort, visual, batch_sort, batch_visual, malformed(arguments the Rust API "
-                "itself rejects)) + fixed probes; every instruction is executed through the Python module and through the Rust API and the two "
+                "constraints, every VisualSortOptions builder method), sort, visual, batch_sort, batch_visual, defaults(constructors with omitted "
+                "arguments + calls sensitive to each default), malformed(arguments the Rust API itself rejects)) + fixed probes; every instruction is executed through the Python module and through the Rust API and the two "
                 "results compared exactly (floats as bit patterns; idle / wasted lists sorted by id; batch results keyed by scene, batch track ids "
                 "up to the bijection of first occurrence, batch shard statistics as totals). evaluations = instructions compared; non-trivial = "
                 "an instruction that returned a non-empty value on the python side, distinct by (operation, value)",
@@ -904,7 +990,7 @@ def run(chk):
             else:
                 small = s["ins"]
         chk.violation(key, what, {"family": s["family"], "script": small, "decoded": decode_script(small), "difference": d,
-                                  "replay_cmd": "./check C18 --replay <this file>", "table_broken": table_broken})
+                                  "replay_cmd": "./check C18 --replay <this file>", "table_broken": table_broken, "failing_rows": rows})
         if len(reported) >= 6:
             break
     for nt in notes:
@@ -915,7 +1001,7 @@ def run(chk):
                           {"script": scripts[nt["script"]]["ins"], "stderr": nt["stderr"], "table_broken": table_broken})
     if table_broken and not any(not k.startswith("C18:validation") and "handle-not-connected" not in k for k in reported):
         what = "the table proof no longer checks: " + "; ".join(b.split("\n")[0][:300] for b in table_broken)
-        chk.violation("C18:table", what, {"broken": table_broken, "hint": "coq/gen/Bindings.v row(s) failing a checker of coq/theories/Model/Bindings.v; "
+        chk.violation("C18:table", what, {"broken": table_broken, "failing_rows": rows, "hint": "coq/gen/Bindings.v row(s) failing a checker of coq/theories/Model/Bindings.v; "
                                           "the differential run found no behavioural difference"}, found_input=False)
     elif table_broken:
         chk.log("table proof broken as well: " + "; ".join(b.split("\n")[0][:200] for b in table_broken))
